@@ -251,6 +251,47 @@ func checkDescriptors(c *core.Ctx, gen string) {
 		}
 		walk(mt.New(), 0)
 		c.Extra("types_reached_"+gen, len(seen))
+		// legacy extension descriptors are derived from the struct tag of the old ExtensionDesc: each
+		// must agree with the declaration of the same name in the file's own descriptor
+		decl := map[protoreflect.FullName]protoreflect.ExtensionDescriptor{}
+		var collect func(xs protoreflect.ExtensionDescriptors, ms protoreflect.MessageDescriptors)
+		collect = func(xs protoreflect.ExtensionDescriptors, ms protoreflect.MessageDescriptors) {
+			for i := 0; i < xs.Len(); i++ {
+				decl[xs.Get(i).FullName()] = xs.Get(i)
+			}
+			for i := 0; i < ms.Len(); i++ {
+				collect(ms.Get(i).Extensions(), ms.Get(i).Messages())
+			}
+		}
+		collect(want.Extensions(), want.Messages())
+		nx := 0
+		row := func(xd protoreflect.FieldDescriptor) string {
+			s := fmt.Sprintf("num=%d kind=%v card=%v packed=%v hasdefault=%v", xd.Number(), xd.Kind(), xd.Cardinality(), xd.IsPacked(), xd.HasDefault())
+			if xd.HasDefault() {
+				s += " default=" + univ.FormatValue(xd.Default())
+			}
+			if xd.Message() != nil {
+				s += " msg=" + string(xd.Message().FullName())
+			}
+			if xd.Enum() != nil {
+				s += " enum=" + string(xd.Enum().FullName())
+			}
+			return s + " extendee=" + string(xd.ContainingMessage().FullName())
+		}
+		protoregistry.GlobalTypes.RangeExtensionsByMessage(mt.Descriptor().FullName(), func(xt protoreflect.ExtensionType) bool {
+			xd := xt.TypeDescriptor()
+			d, ok := decl[xd.FullName()]
+			if !ok {
+				c.Violation(fmt.Sprintf("legacy extension %s of generation %s is not declared under that name in the file's descriptor", xd.FullName(), gen), nil)
+				return true
+			}
+			nx++
+			if g, w := row(xd), row(d); g != w {
+				c.Violation(fmt.Sprintf("derived descriptor of legacy extension %s differs from its declaration", xd.FullName()), map[string]any{"derived": g, "declared": w})
+			}
+			return true
+		})
+		c.Extra("legacy_extensions_"+gen, nx)
 	})
 }
 
@@ -281,7 +322,7 @@ func firstDiff(a, b string) string {
 }
 
 func run(c *core.Ctx) {
-	c.Rule = "for each of the twelve legacy generations (Message type registered through the v1 shim): (a) the file descriptor derived by the runtime (legacyLoadFileDesc) equals, accessor by accessor, protodesc.NewFile of the gunzipped raw descriptor the old generated code embeds, the index path names the same message, and every nested Go type reached through the wrapper maps to the registered descriptor; (b) EVERY message of <=k slots (quick k=1 for all generations and k=2 for the oldest proto2 and proto3 generation; thorough k=2 for all) over the thin slot alphabet (all fields incl. legacy extensions, unknown fields, nested messages to depth 1) is built through reflection in the legacy wrapper and in dynamicpb over the derived descriptor: reflection snapshot, deterministic wire bytes, Size, CheckInitialized, protojson (default and EmitUnpopulated/UseProtoNames/UseEnumNumbers) and prototext output must be identical; each decodes the other's bytes to the same content; Clone; the legacy type parses its twin's JSON back to the same content; (c) EVERY sequence of <=k wire records (same k) is decoded by both: same verdict with and without AllowPartial, same observation; (d) maps with 8 entries of every scalar key/value kind placed at the root and below every nested-message path that leads back to the root type (singular child, repeated sibling, map value, group): deterministic bytes identical to dynamicpb. aberrant (struct-tag only) types: see the aberrant clauses in this rule's evidence"
+	c.Rule = "for each of the twelve legacy generations (Message type registered through the v1 shim): (a) the file descriptor derived by the runtime (legacyLoadFileDesc) equals, accessor by accessor, protodesc.NewFile of the gunzipped raw descriptor the old generated code embeds, the index path names the same message, and every nested Go type reached through the wrapper maps to the registered descriptor, and every legacy extension descriptor (derived from the struct tag of the old ExtensionDesc) agrees with its declaration in the file descriptor on number, kind, cardinality, packedness, default, message/enum type and extendee; (b) EVERY message of <=k slots (quick k=1 for all generations and k=2 for the oldest proto2 and proto3 generation; thorough k=2 for all) over the thin slot alphabet (all fields incl. legacy extensions, unknown fields, nested messages to depth 1) is built through reflection in the legacy wrapper and in dynamicpb over the derived descriptor: reflection snapshot, deterministic wire bytes, Size, CheckInitialized, protojson (default and EmitUnpopulated/UseProtoNames/UseEnumNumbers) and prototext output must be identical; each decodes the other's bytes to the same content; Clone; the legacy type parses its twin's JSON back to the same content; (c) EVERY sequence of <=k wire records (same k) is decoded by both: same verdict with and without AllowPartial, same observation; (d) maps with 8 entries of every scalar key/value kind placed at the root and below every nested-message path that leads back to the root type (singular child, repeated sibling, map value, group): deterministic bytes identical to dynamicpb. aberrant (struct-tag only) types: see the aberrant clauses in this rule's evidence"
 	c.Exhaustive = true
 	for _, g := range generations {
 		checkDescriptors(c, g)
